@@ -51,5 +51,6 @@ func checkC06(p *Prog, r *Report) {
 	checkPnftIdsExcludeDelimiter(p, r, func(rule, rest string) string { return rule + ":C06:" + rest })
 	checkSignBytesBindMessage(p, r, "C06", "x/pnft")
 	checkInitGenesisCallers(p, r, "C06", "x/pnft")
+	checkNoUnseparatedCompositeMapKeys(p, r, func(rule, rest string) string { return rule + ":C06:" + rest }, "x/pnft")
 	wireKeyOwnership(p, r, BuildWire(p), "C06", "pnft", []string{"x/pnft/keeper.NewKeeper"}, "denoms, tokens and their owners")
 }
